@@ -37,8 +37,8 @@ CONSTANTS
   MaxGen      \* bound on Restart generations
 
 STOP == 0
-ReapSeq == <<"reap1", "reap2">>
-LisSeq == <<"ctx1", "ctx2">>
+ReapSeq == [i \in 1..(MaxGen + 1) |-> "reap" \o ToString(i)]      \* one remover / listener per start()
+LisSeq == [i \in 1..(MaxGen + 1) |-> "ctx" \o ToString(i)]
 SeqRange(s) == {s[i] : i \in DOMAIN s}
 Disps == SeqRange(DispSeq)
 PGs == SeqRange(PGSeq)
@@ -74,7 +74,7 @@ Last(s) == s[Len(s)]
 Front(s) == SubSeq(s, 1, Len(s) - 1)
 Range(s) == {s[i] : i \in DOMAIN s}
 NoLoc == [j |-> 0, n |-> 0, node |-> 0, ok |-> TRUE, g |-> 0, snap |-> <<>>, jobs |-> <<>>, old |-> 0, shrink |-> 0,
-          wsnap |-> {}, clean |-> FALSE, solo |-> FALSE, res |-> "nil"]
+          wsnap |-> {}, clean |-> FALSE, solo |-> FALSE, tok |-> 0, res |-> "nil"]
 
 pc == S.pc
 Op(c) == Prog[c][S.ip[c]]
@@ -91,8 +91,13 @@ WaitCond == CASE S.ws = "running" -> Len(S.q) > 0 \/ S.cur > 0
               [] S.ws \in {"paused", "stopped"} -> S.cur > 0
               [] OTHER -> FALSE
 MxFree == S.mx = "none"
-\* effect of the non-blocking send on the current signal channel
-Notified == IF ~S.chanNil /\ S.sigTok[S.gen] = 0 /\ ~S.sigClosed[S.gen] THEN [S.sigTok EXCEPT ![S.gen] = 1] ELSE S.sigTok
+\* the non-blocking send on the current signal channel (callers hold RLock): a dispatcher parked in its
+\* range over that channel receives the token directly (the buffer stays empty), else it is buffered, else dropped
+Ranging(s) == {d \in Disps : s.pc[d] = "i.range" /\ s.loc[d].g = s.gen /\ s.loc[d].tok = 0}
+NotifyS(s) == IF s.chanNil \/ s.sigClosed[s.gen] THEN s
+              ELSE IF Ranging(s) # {} THEN [s EXCEPT !.loc[CHOOSE d \in Ranging(s) : TRUE].tok = 1]
+              ELSE IF s.sigTok[s.gen] = 0 THEN [s EXCEPT !.sigTok[s.gen] = 1]
+              ELSE s
 
 Init ==
   /\ S = [ws |-> "running", cur |-> 0, conc |-> Conc0, gen |-> 0, chanNil |-> FALSE,
@@ -100,7 +105,7 @@ Init ==
           sigClosed |-> [g \in Gens |-> FALSE],
           mx |-> "none", lc |-> "none", cond |-> {}, q |-> <<>>, qclosed |-> FALSE,
           idle |-> <<1>>, nch |-> [n \in Nodes |-> <<>>], cache |-> {}, used |-> {1},
-          jst |-> [j \in Jobs |-> "created"], jwg |-> [j \in Jobs |-> 1], hd |-> {},
+          jst |-> [j \in Jobs |-> "created"], jwg |-> [j \in Jobs |-> 1], hd |-> {}, nohd |-> {},
           msub |-> 0, mcomp |-> 0, msucc |-> 0, mfail |-> 0,
           ctxGen |-> 0, ctxCanc |-> {}, pcancel |-> FALSE, tick |-> IF Expiry THEN {0} ELSE {},
           pc |-> [p \in Procs |-> IF p \in Clients THEN "call"
@@ -177,14 +182,20 @@ C_AddRejected(c) ==
 \* accepted: incSubmitted, notify (RLock), return
 C_AddNotify(c) ==
   /\ c \in Clients /\ S.pc[c] = "add.enq" /\ S.loc[c].ok /\ MxFree
-  /\ S' = Fin([S EXCEPT !.msub = @ + 1, !.sigTok = Notified, !.hd = @ \cup {S.loc[c].j}], c)
+  /\ S' = Fin(NotifyS([S EXCEPT !.msub = @ + 1, !.hd = @ \cup {S.loc[c].j}]), c)
   /\ H' = HFin(c, "ok")
 
 \* after markClosed succeeded: wg.Done, return (shared by Close, the rejected Add and Purge)
 J_Done(c) ==
   /\ c \in Clients /\ S.pc[c] = "jclose.marked"
-  /\ S' = Pop([S EXCEPT !.jwg[S.loc[c].j] = @ - 1], c)
+  /\ S' = Pop([S EXCEPT !.jwg[S.loc[c].j] = @ - 1, !.nohd = IF Op(c).op = "Add" THEN @ \cup {S.loc[c].j} ELSE @], c)
   /\ H' = HPop(c, IF Op(c).op = "Add" THEN "rej" ELSE "nil")
+
+\* an op on the handle of a job whose Add was rejected: there is no handle, nothing is called
+C_NoHandle(c) ==
+  /\ c \in Clients /\ S.pc[c] = "call" /\ HasOp(c) /\ Op(c).op \in {"Close", "Wait"} /\ Op(c).job \in S.nohd
+  /\ S' = Fin(S, c)
+  /\ H' = [H EXCEPT !.ctl = @]
 
 C_Close(c) ==
   /\ AtCall(c, "Close") /\ Op(c).job \in S.hd
@@ -198,6 +209,12 @@ C_Wait(c) ==
   /\ AtCall(c, "Wait") /\ Op(c).job \in S.hd /\ S.jwg[Op(c).job] = 0
   /\ S' = Fin(S, c)
   /\ H' = HFin(c, "nil")
+
+\* read-only calls (Status, NumPending, Metrics, ...) change nothing
+C_Nop(c) ==
+  /\ AtCall(c, "Nop")
+  /\ S' = Fin(S, c)
+  /\ H' = H
 
 C_QClose(c) ==
   /\ AtCall(c, "QClose")
@@ -261,7 +278,7 @@ R_Store(p) ==
   /\ UNCHANGED H
 R_Notify(p) ==
   /\ S.pc[p] = "resume.stored" /\ MxFree
-  /\ S' = Fin([S EXCEPT !.sigTok = Notified], p)
+  /\ S' = Fin(NotifyS(S), p)
   /\ H' = HFin(p, "nil")
 
 ---- \* TunePool
@@ -273,7 +290,7 @@ C_Tune(c) ==
             /\ H' = [H EXCEPT !.concMax = Max({@, n})]
 T_After(p) ==
   /\ S.pc[p] = "tune.stored"
-  /\ IF S.loc[p].n > S.loc[p].old THEN MxFree /\ S' = Fin([S EXCEPT !.sigTok = Notified], p)
+  /\ IF S.loc[p].n > S.loc[p].old THEN MxFree /\ S' = Fin(NotifyS(S), p)
      ELSE IF Expiry THEN S' = Fin(S, p)
      ELSE S' = [S EXCEPT !.loc[p].shrink = S.loc[p].old - S.loc[p].n, !.pc[p] = "i.tune.loop"]
   /\ UNCHANGED H
@@ -400,15 +417,22 @@ I_Start(p) ==
 \* goEventLoop, goRemoveIdleWorkers, goListenToContext, initPoolNode (Cache.Get: a cached node or a new one)
 Unborn(sq) == {i \in DOMAIN sq : S.pc[sq[i]] = "unborn"}
 FirstUnborn(sq) == sq[CHOOSE i \in Unborn(sq) : \A k \in Unborn(sq) : i <= k]   \* ids are allocated in order
+\* goEventLoop: the new dispatcher exists from here on
 ST_Go(p) ==
-  /\ S.pc[p] = "start.enter" /\ (Expiry => MxFree)
-  /\ Unborn(DispSeq) # {} /\ Unborn(PGSeq) # {}
+  /\ S.pc[p] = "start.enter"
+  /\ Unborn(DispSeq) # {}
+  /\ LET d == FirstUnborn(DispSeq) IN
+       S' = [S EXCEPT !.pc[d] = "loop.start", !.loc[d].g = S.gen, !.pc[p] = "i.start.2"]
+  /\ UNCHANGED H
+\* goRemoveIdleWorkers (appends its ticker under w.mx), goListenToContext, initPoolNode
+ST_Go2(p) ==
+  /\ S.pc[p] = "i.start.2" /\ (Expiry => MxFree)
+  /\ Unborn(PGSeq) # {}
   /\ Expiry => Unborn(ReapSeq) # {}
   /\ WithCtx => Unborn(LisSeq) # {}
   /\ \E n \in S.cache \cup (IF Nodes \ S.used = {} THEN {} ELSE {CHOOSE m \in Nodes \ S.used : \A k \in Nodes \ S.used : m <= k}) :
-       LET d == FirstUnborn(DispSeq)  g == FirstUnborn(PGSeq)
-           s1 == [S EXCEPT !.pc[d] = "loop.start", !.loc[d].g = S.gen,
-                           !.pc[g] = "recv", !.loc[g].node = n,
+       LET g == FirstUnborn(PGSeq)
+           s1 == [S EXCEPT !.pc[g] = "recv", !.loc[g].node = n,
                            !.cache = @ \ {n}, !.used = @ \cup {n},
                            !.loc[p].node = n, !.pc[p] = "node.init"]
            s2 == IF Expiry THEN [s1 EXCEPT !.pc[FirstUnborn(ReapSeq)] = "reap.wait", !.loc[FirstUnborn(ReapSeq)].g = S.gen, !.tick = @ \cup {S.gen}] ELSE s1
@@ -419,12 +443,16 @@ ST_Push(p) ==
   /\ S.pc[p] = "node.init" /\ p \notin Disps
   /\ S' = [S EXCEPT !.idle = Append(@, S.loc[p].node), !.pc[p] = "start.node"]
   /\ UNCHANGED H
-\* deferred: status.Store(running); notify
+\* deferred: status.Store(running) ...
 ST_Fin(p) ==
-  /\ S.pc[p] = "start.node" /\ MxFree
-  /\ LET s1 == [S EXCEPT !.ws = "running"] IN
-       S' = Pop([s1 EXCEPT !.sigTok = IF ~s1.chanNil /\ s1.sigTok[s1.gen] = 0 /\ ~s1.sigClosed[s1.gen] THEN [@ EXCEPT ![s1.gen] = 1] ELSE @,
-                           !.lc = IF s1.lc = p THEN "none" ELSE @], p)
+  /\ S.pc[p] = "start.node"
+  /\ S' = [S EXCEPT !.ws = "running", !.pc[p] = "i.start.notify"]
+  /\ UNCHANGED H
+\* ... then notify (RLock)
+ST_Notify(p) ==
+  /\ S.pc[p] = "i.start.notify" /\ MxFree
+  /\ LET s1 == NotifyS(S) IN
+       S' = Pop([s1 EXCEPT !.lc = IF s1.lc = p THEN "none" ELSE @], p)
   /\ H' = HPop(p, "nil")
 
 ---- \* cancelling the user's context (client op) and the context listener
@@ -448,6 +476,8 @@ RP_Tick(r) ==
   /\ r \in Reapers /\ S.pc[r] = "reap.wait"
   /\ \/ S.loc[r].g \in S.tick /\ S' = [S EXCEPT !.pc[r] = "reap.tick"]
      \/ S.loc[r].g \notin S.tick /\ S' = [S EXCEPT !.pc[r] = "dead"]
+     \* the select may still pick one tick that was buffered before the ticker was stopped
+     \/ S.loc[r].g \notin S.tick /\ S.loc[r].ok /\ S' = [S EXCEPT !.loc[r].ok = FALSE, !.pc[r] = "reap.tick"]
   /\ UNCHANGED H
 RP_Len(r) ==
   /\ r \in Reapers /\ S.pc[r] = "reap.tick"
@@ -490,23 +520,35 @@ Rel_Bcast(p) ==
 (* Dispatcher ("event loop") d; loc[d].g is the generation of the channel it captured *)
 
 MayDispatch(d) == S.ws = "running" /\ ~S.chanNil /\ S.gen = S.loc[d].g
-\* for range signal: take a token, or leave when the channel is closed and empty
+\* for range signal: take a buffered token, leave when the channel is closed and empty, else park in the receive
 D_Take(d) ==
   /\ d \in Disps /\ S.pc[d] \in {"loop.start", "loop.idle"}
-  /\ \/ S.sigTok[S.loc[d].g] = 1 /\ S' = [S EXCEPT !.sigTok[S.loc[d].g] = 0, !.pc[d] = "loop.wake"]
-     \/ S.sigTok[S.loc[d].g] = 0 /\ S.sigClosed[S.loc[d].g] /\ S' = [S EXCEPT !.pc[d] = "loop.exit"]
+  /\ S' = IF S.sigTok[S.loc[d].g] = 1 THEN [S EXCEPT !.sigTok[S.loc[d].g] = 0, !.pc[d] = "loop.wake"]
+          ELSE IF S.sigClosed[S.loc[d].g] THEN [S EXCEPT !.pc[d] = "loop.exit"]
+          ELSE [S EXCEPT !.pc[d] = "i.range"]
+  /\ UNCHANGED H
+\* parked in the receive: woken by a token handed over, a buffered token, or the close
+D_Woken(d) ==
+  /\ d \in Disps /\ S.pc[d] = "i.range"
+  /\ \/ S.loc[d].tok = 1 /\ S' = [S EXCEPT !.loc[d].tok = 0, !.pc[d] = "loop.wake"]
+     \/ S.loc[d].tok = 0 /\ S.sigTok[S.loc[d].g] = 1 /\ S' = [S EXCEPT !.sigTok[S.loc[d].g] = 0, !.pc[d] = "loop.wake"]
+     \/ S.loc[d].tok = 0 /\ S.sigTok[S.loc[d].g] = 0 /\ S.sigClosed[S.loc[d].g] /\ S' = [S EXCEPT !.pc[d] = "loop.exit"]
   /\ UNCHANGED H
 D_Exit(d) ==
   /\ d \in Disps /\ S.pc[d] = "loop.exit"
   /\ S' = [S EXCEPT !.pc[d] = "dead"]
   /\ UNCHANGED H
-\* the inner loop's condition (isEventLoopSignal takes RLock when the worker is running);
+\* the inner loop's condition: IsRunning() first; only then isEventLoopSignal (RLock), curProcessing, Len;
 \* false: releaseWaiters(curProcessing.Load()) and back to the range
 D_Check(d) ==
   /\ d \in Disps /\ S.pc[d] \in {"loop.wake", "disp.sent", "disp.release", "i.loop"}
   /\ S.pc[d] = "disp.release" => S.loc[d].res # "handover"
-  /\ S.ws = "running" => MxFree
-  /\ S' = IF MayDispatch(d) /\ S.cur < S.conc /\ Len(S.q) > 0
+  /\ S' = IF S.ws = "running" THEN [S EXCEPT !.pc[d] = "i.loop.lock"]
+          ELSE [S EXCEPT !.loc[d].n = S.cur, !.pc[d] = "rel.enter", !.stk[d] = <<"loop.idle">>]
+  /\ UNCHANGED H
+D_Check2(d) ==
+  /\ d \in Disps /\ S.pc[d] = "i.loop.lock" /\ MxFree
+  /\ S' = IF ~S.chanNil /\ S.gen = S.loc[d].g /\ S.cur < S.conc /\ Len(S.q) > 0
             THEN [S EXCEPT !.pc[d] = "loop.pass"]
             ELSE [S EXCEPT !.loc[d].n = S.cur, !.pc[d] = "rel.enter", !.stk[d] = <<"loop.idle">>]
   /\ UNCHANGED H
@@ -515,19 +557,23 @@ D_Reserve(d) ==
   /\ d \in Disps /\ S.pc[d] = "loop.pass"
   /\ S' = IF S.cur < S.conc THEN [S EXCEPT !.cur = @ + 1, !.pc[d] = "disp.reserve"] ELSE [S EXCEPT !.pc[d] = "i.loop"]
   /\ UNCHANGED H
-\* re-check after reserving; next()+Dequeue; on any failure the slot is given back (deferred);
-\* a dispatch that backs out because its loop may not dispatch any more signals the current loop afterwards
-D_Deq(d) ==
+\* re-check after reserving (IsRunning() first, then isEventLoopSignal under RLock); next()+Dequeue;
+\* on any failure the slot is given back (deferred); a dispatch that backs out because its loop may not
+\* dispatch any more signals the current loop afterwards
+BackOut(d, why) == [S EXCEPT !.cur = @ - 1, !.loc[d].n = S.cur - 1, !.pc[d] = "rel.enter", !.stk[d] = <<"disp.release">>, !.loc[d].res = why]
+D_Recheck(d) ==
   /\ d \in Disps /\ S.pc[d] = "disp.reserve"
-  /\ S.ws = "running" => MxFree
-  /\ S' = IF MayDispatch(d) /\ Len(S.q) > 0
-            THEN [S EXCEPT !.loc[d].j = Head(S.q), !.q = Tail(@), !.pc[d] = "disp.deq"]
-            ELSE [S EXCEPT !.cur = @ - 1, !.loc[d].n = S.cur - 1, !.pc[d] = "rel.enter", !.stk[d] = <<"disp.release">>,
-                           !.loc[d].res = IF MayDispatch(d) THEN "nil" ELSE "handover"]
+  /\ S' = IF S.ws = "running" THEN [S EXCEPT !.pc[d] = "i.disp.lock"] ELSE BackOut(d, "handover")
+  /\ UNCHANGED H
+D_Deq(d) ==
+  /\ d \in Disps /\ S.pc[d] = "i.disp.lock" /\ MxFree
+  /\ S' = IF S.chanNil \/ S.gen # S.loc[d].g THEN BackOut(d, "handover")
+          ELSE IF Len(S.q) = 0 THEN BackOut(d, "nil")
+          ELSE [S EXCEPT !.loc[d].j = Head(S.q), !.q = Tail(@), !.pc[d] = "disp.deq"]
   /\ UNCHANGED H
 D_HandOver(d) ==
   /\ d \in Disps /\ S.pc[d] = "disp.release" /\ S.loc[d].res = "handover" /\ MxFree
-  /\ S' = [S EXCEPT !.sigTok = Notified, !.loc[d].res = "nil", !.pc[d] = "i.loop"]
+  /\ S' = [NotifyS(S) EXCEPT !.loc[d].res = "nil", !.pc[d] = "i.loop"]
   /\ UNCHANGED H
 \* startProcessing: compare-and-swap to Processing unless Closed
 D_Proc(d) ==
@@ -609,20 +655,20 @@ S_Dec(g) ==
 \* incCompleted; notify; back to the channel
 S_Notify(g) ==
   /\ g \in PGs /\ S.pc[g] = "serve.rel" /\ MxFree
-  /\ S' = [S EXCEPT !.mcomp = @ + 1, !.sigTok = Notified, !.pc[g] = "recv"]
+  /\ S' = [NotifyS(S) EXCEPT !.mcomp = @ + 1, !.pc[g] = "recv"]
   /\ UNCHANGED H
 
 -----------------------------------------------------------------------------
 ClientStep(c) == C_Add(c) \/ C_AddRejected(c) \/ C_AddNotify(c) \/ J_Done(c) \/ C_Close(c) \/ C_Wait(c) \/ C_QClose(c)
                  \/ C_WUF(c) \/ C_Pause(c) \/ C_Resume(c) \/ C_Tune(c) \/ C_Purge(c) \/ C_Stop(c) \/ C_WaitAndStop(c)
-                 \/ C_Restart(c) \/ C_CancelCtx(c)
+                 \/ C_Restart(c) \/ C_CancelCtx(c) \/ C_Nop(c) \/ C_NoHandle(c)
 \* steps of sub-procedures that clients and the context listener share
 SubStep(p) == I_Wuf(p) \/ W_Cond(p) \/ W_Park(p) \/ W_Wake(p) \/ I_Pause(p) \/ P_Store(p) \/ R_Store(p) \/ R_Notify(p)
               \/ T_After(p) \/ T_Loop(p) \/ T_Stop(p) \/ U_Deq(p) \/ U_Close(p)
               \/ I_Stop(p) \/ I_Stop2(p) \/ S_Chans(p) \/ S_Nodes(p) \/ I_StopAll(p) \/ SA_Stop(p) \/ SP_Fin(p)
               \/ I_Restart(p) \/ I_RsNodes(p) \/ I_Rs2(p) \/ RS_Close(p) \/ RS_New(p) \/ RS_Reset(p) \/ RS_Start(p)
-              \/ I_Start(p) \/ ST_Go(p) \/ ST_Push(p) \/ ST_Fin(p)
-DispStep(d) == D_Take(d) \/ D_Exit(d) \/ D_Check(d) \/ D_Reserve(d) \/ D_Deq(d) \/ D_HandOver(d) \/ D_Proc(d) \/ D_Skip(d) \/ D_Node(d) \/ D_Send(d)
+              \/ I_Start(p) \/ ST_Go(p) \/ ST_Go2(p) \/ ST_Push(p) \/ ST_Fin(p) \/ ST_Notify(p)
+DispStep(d) == D_Take(d) \/ D_Woken(d) \/ D_Exit(d) \/ D_Check(d) \/ D_Check2(d) \/ D_Reserve(d) \/ D_Recheck(d) \/ D_Deq(d) \/ D_HandOver(d) \/ D_Proc(d) \/ D_Skip(d) \/ D_Node(d) \/ D_Send(d)
                \/ Rel_Eval(d) \/ Rel_Bcast(d)
 PoolStep(g) == S_Recv(g) \/ S_Enter(g) \/ S_Exit(g) \/ S_Fin(g) \/ S_Close(g) \/ S_Done(g) \/ S_Free(g) \/ S_Dec(g) \/ S_Notify(g)
                \/ Rel_Eval(g) \/ Rel_Bcast(g)
